@@ -138,7 +138,7 @@ CLAIMED = {
              "the link is lost is discarded (C06_stop_discards_queued_refuted, known finding C06-queued-at-link-loss). "
              "The implementation is searched for failing schedules (every single preemption point at bytecode granularity), driven with concurrent requesters, bursts, reconnects "
              "(also in the middle of a message), a block forced to arrive exactly at the dispatcher's empty check, data messages carrying the system bytes of an unanswered linktest / of a request that timed out, "
-             "primaries of the peer that carry the system bytes of outstanding requests, and a handler that calls disable(), enable() and keeps running. The hand-over decision Protocol._deliver_message is regenerated on every run (harness/gen_handover.py -> Gen/HandOver.v); over it, for every schedule of the receiver thread, the dispatcher thread and a requester that may give up at any moment, only the dispatcher thread hands messages to the application, in arrival order, and every arrival is handed over exactly once (C06_only_the_dispatcher_hands_over, C06_handed_over_exactly_once; the decision before D78 refuted: C06_before_D78_refuted).",
+             "primaries of the peer that carry the system bytes of outstanding requests, and a handler that calls disable(), enable() and keeps running. The hand-over decision Protocol._deliver_message is regenerated on every run (harness/gen_handover.py -> Gen/HandOver.v); over it, for every schedule of the receiver thread, the dispatcher thread and a requester that may give up at any moment, only the dispatcher thread hands messages to the application, in arrival order, and every arrival is handed over exactly once (C06_only_the_dispatcher_hands_over, C06_handed_over_exactly_once; the decision before D78 refuted: C06_before_D78_refuted). The steps of send_and_waitfor_response are regenerated on every run (Gen/Request.v); for any number of calls of a thread and any arrivals, timeouts and failing sends, a call returns nothing or the message with its own system bytes (C06_a_call_returns_its_own_reply; registration behind the send and a re-used waiter refuted: C06_request_steps_refuted).",
         note=NOTE_COMMON + " Partial on 'interleavings': a locked body is ONE atomic step of the model (threading.Lock's mutual exclusion and the atomicity of a single attribute "
              "load/store under the GIL are trusted); 'one at a time' within one connection rests on there being one dispatcher thread per generation (observed: thread count, "
              "overlap of callbacks), across connections on the generations model (an abstraction written by hand, tied by two translator flags and the forced scenario); timers are outside.",
